@@ -35,8 +35,8 @@ example : Spec.shipped.length = 55 := by decide
 /-- reply enums of the specification: present with the same variants, in the same order, with the same packet layouts. -/
 theorem enums_cover_spec : enumsCovered Spec.enums Generated.enums = true := by decide +kernel
 
-/-- the translator translated everything it found. -/
-theorem no_translator_problems : Generated.problems = [] := by decide
+/-- the translator translated every packet type and reply enum it found. -/
+theorem no_translator_problems : Generated.layoutProblems = [] := by decide
 
 /-! ### the layout as a theorem: code (model) = reference encoder of the format description
 
